@@ -41,8 +41,8 @@ RULE = (
     "generation byte-identical, --check exits 0; distinct_nontrivial = distinct (config, template, async, files) generations"
 )
 BOUNDS = {
-    "quick": "10 corpus + 11 alternative-spelling/explicit-default/keyword-prefixed/snake_case + 7 hostile + 62 reference-position machines + 12 Stately exports x 5 templates x 2 async x 2 file counts",
-    "thorough": "10 corpus + 11 alternative-spelling/explicit-default/keyword-prefixed/snake_case + 7 hostile + 172 reference-position machines + all 104 Stately exports x 5 templates x 2 async x 2 file counts",
+    "quick": "10 corpus + 11 alternative-spelling/explicit-default/keyword-prefixed/snake_case + 8 hostile + 62 reference-position machines + 12 Stately exports x 5 templates x 2 async x 2 file counts",
+    "thorough": "10 corpus + 11 alternative-spelling/explicit-default/keyword-prefixed/snake_case + 8 hostile + 172 reference-position machines + all 104 Stately exports x 5 templates x 2 async x 2 file counts",
 }
 ASSUMPTIONS = [
     "the generated runner's main() (demo simulation) is not executed; the logic module / machine builder is",
@@ -69,6 +69,9 @@ def hostile() -> Dict[str, Dict[str, Any]]:
         "s1": {"on": {"E": "evil\"\"\"\n" + CANARY + "=1\n\"\"\""}},
         "evil\"\"\"\n" + CANARY + "=1\n\"\"\"": {"on": {"E": "s1"}, "meta": {"doc": "\"\"\"" + PAYLOAD}, "tags": [PAYLOAD]}}}
     h["inject_id"] = {"id": "m\"\"\"\n" + CANARY + " = 1\n\"\"\"", "initial": "a", "states": {"a": {"on": {"E": "b"}}, "b": {}}}
+    # an EVENT name that ends its string literal with a raw newline (the runner sends every event it finds)
+    h["newline_event"] = {"id": "nl", "initial": "a", "states": {
+        "a": {"on": {"GO\n" + CANARY + " = 1": "b", "TAB\tX": "b", "OK": "b"}}, "b": {"on": {"BACK\r": "a"}}}}
     h["keywords"] = {"id": "kw", "initial": "class", "states": {
         "class": {"entry": ["def", "import"], "on": {"lambda": {"target": "None", "guard": "True"}}},
         "None": {"on": {"return": "class"}}}}
